@@ -98,6 +98,46 @@ def _exactify(x):
     return reftree.Exact(x)
 
 
+def run_module_cases(S, tier):
+    """Schemas spread over imported modules: the record must still list every declaration (the
+    reflection of a split schema equals, per category, that of the single-file schema)."""
+    import json
+    import os
+    import shutil
+    import tempfile
+    from fcp.parser import get_fcp, get_fcp_from_string
+    from fcp.error import Logger
+    from . import c20
+
+    for bname, base in c20.BASES.items():
+        single = strip_meta(get_fcp_from_string(print_schema(base), Logger({})).unwrap().reflection())
+        want = {k: sorted(json.dumps(x, sort_keys=True) for x in single[k]) for k in ("structs", "enums", "impls", "services")}
+        sp = c20.splits(base, "quick")
+        for k, (label, files) in enumerate(sp):
+            if k % (9 if tier == "quick" else 2):
+                continue
+            S.count("states")
+            S.count("transitions")
+            S.count("executions")
+            S.add("nontrivial", ("module", bname, k))
+            td = tempfile.mkdtemp(prefix="fcpmc-c12-")
+            try:
+                texts = c20.write_tree(td, files)
+                r = get_fcp(os.path.join(td, "main.fcp"), Logger({}))
+                if r.is_err():
+                    continue  # C20's subject
+                rec = strip_meta(r.unwrap().reflection())
+                got = {c: sorted(json.dumps(x, sort_keys=True) for x in rec[c]) for c in want}
+                bad = [c for c in want if want[c] != got[c]]
+                if bad:
+                    S.add("outcomes", "module-record-differs")
+                    S.violation("C12.modules", "C12.modules/record-misses-module-declarations/" + ",".join(bad), {"files": texts, "split": label}, expected={c: want[c] for c in bad}, actual={c: got[c] for c in bad})
+                else:
+                    S.add("outcomes", "module-ok")
+            finally:
+                shutil.rmtree(td, ignore_errors=True)
+
+
 def run(tier):
     common.bind_repo()
     r = Run("C12", tier)
@@ -106,6 +146,7 @@ def run(tier):
     for s in pmap(make_worker(tier), chunks(list(enumerate(ds)), 8)):
         r.stats.merge(s)
     r.stats.c["transitions"] += transitions
+    run_module_cases(r.stats, tier)
     r.rule = (
         "states = C07's schema descriptions (every node kind, with/without units, ranges, signal blocks, services; type nesting to the depth bound); "
         "each is parsed, reflected (FcpV2.reflection), compared with the record computed from the description (projection on the attributes the statement names), "
